@@ -72,7 +72,7 @@ Fixpoint pow_loop (fuel : nat) (i pow sq : Z) : res Z :=
 
 Definition hashStrUnicode (sep : bytes) : res (Z * Z * Z) :=
   do hn <- hash_runes (S (length sep)) sep 0 0;
-  do pw <- pow_loop 64 (snd hn) 1 (w32 primeRK);
+  do pw <- pow_loop (S (length sep)) (snd hn) 1 (w32 primeRK);
   Ok (fst hn, pw, snd hn).
 
 (* first loop of indexRabinKarpUnicode: hash of the first n code points of s; returns (h, j, n left) *)
